@@ -1,4 +1,5 @@
 import MioModel.Lemmas.Stream
+import MioModel.Props.C03
 /-! # C11 — Raw Tcp preserves the byte stream -/
 namespace Mio.C11
 open Mio Mio.Stream Mio.Generated
@@ -69,5 +70,22 @@ example : LegalSession tcpInputBufferSize (fun (_ : Unit) ch => some ((), [ch]))
 example : (session tcpInputBufferSize (fun (_ : Unit) ch => some ((), [ch])) { st := () }
     [{ arrived := [1, 2, 3], sched := [.take 2, .take 1, .wouldBlock] }, { arrived := [4, 5], sched := [.take 2, .wouldBlock] }]).outs
     = [[1, 2], [3], [4, 5]] := by decide
+
+/-! ## Through the node's dispatch layer
+
+Whatever the listener mode and however many chunks were cached before the listener call, the callback
+sees the chunks the processor produced in production order (`Mio.Node.reachable_oinv`): the bytes it
+has received so far are a prefix of the bytes produced. -/
+
+/-- the byte stream handed to the callback by the node is a prefix of the byte stream the processor's
+chunks make up — never a permutation of it -/
+theorem tcp_stream_through_node (chunks : List Bytes) (mode : Mio.Node.Mode) (c : Nat) (n : Mio.Node.St)
+    (hn : Mio.Node.Reachable mode c n) :
+    ((Mio.Node.netLog n).filterMap (fun i => chunks[i]?)).flatten <+: chunks.flatten := by
+  have h := (Mio.Node.reachable_oinv mode c n hn).core.2.2.1
+  generalize (Mio.Node.netLog n).length = k at h
+  rw [h, Mio.C03.filterMap_range_getElem?]
+  refine ⟨(chunks.drop k).flatten, ?_⟩
+  rw [← List.flatten_append, List.take_append_drop]
 
 end Mio.C11
